@@ -130,6 +130,12 @@ def run(ctx):
             ext.append("utf8.decode " + hx(w + b"\x80"))
             ext.append("utf8.decode " + hx(w + b"A"))
     ops += ext
+    # every second byte of the four-byte forms (all planes, every 4096-block of each) with the third byte on both sides of bit 5
+    for b0 in range(0xF0, 0xF5):
+        for b1 in range(0x80, 0xC0):
+            for b2 in (0x80, 0x9F, 0xA0, 0xBF):
+                for b3 in (0x80, 0xBF):
+                    ops.append("utf8.decode " + hx(bytes([b0, b1, b2, b3])))
     bad, a, b = pvlib.diff_streams(ctx, "utf8.decode", ops)
     ctx.cov["decode_accepting"] = sum(1 for x in a if x.startswith("ok"))
     ctx.cov["decode_rejecting"] = sum(1 for x in a if x.startswith("ERR"))
